@@ -23,6 +23,12 @@ pub struct Case {
 	pub full: bool,
 	pub initial: String,
 	pub ops: Vec<AOp>,
+	/// per op: 0 = as is; otherwise the argument is DERIVED from the current value of the
+	/// targeted sub-component at that point of the history (1 = flip hex-digit case of the
+	/// escapes, 2 = flip ASCII letter case, 3 = percent-encode one character, 4 = the very same
+	/// text again): equal-but-not-identical arguments, which independent draws never produce
+	#[serde(default)]
+	pub derive: Vec<u8>,
 }
 
 pub struct C11;
@@ -35,6 +41,97 @@ pub fn aop(o: Opt) -> BoxedStrategy<AOp> {
 		1 => Just(AOp::Read),
 	]
 	.boxed()
+}
+
+fn respell(s: &str, how: u8) -> String {
+	match how {
+		1 => {
+			// flip the case of hex digits inside escapes
+			let b: Vec<char> = s.chars().collect();
+			let mut out = String::new();
+			let mut i = 0;
+			while i < b.len() {
+				if b[i] == '%' && i + 2 < b.len() + 0 && i + 2 <= b.len() - 1 {
+					out.push('%');
+					for c in &b[i + 1..i + 3] {
+						out.push(if c.is_ascii_lowercase() { c.to_ascii_uppercase() } else { c.to_ascii_lowercase() })
+					}
+					i += 3;
+				} else {
+					out.push(b[i]);
+					i += 1;
+				}
+			}
+			out
+		}
+		2 => {
+			// flip ASCII letter case outside escapes
+			let b: Vec<char> = s.chars().collect();
+			let mut out = String::new();
+			let mut i = 0;
+			while i < b.len() {
+				if b[i] == '%' && i + 2 < b.len() {
+					out.extend(&b[i..i + 3]);
+					i += 3;
+				} else {
+					out.push(if b[i].is_ascii_lowercase() { b[i].to_ascii_uppercase() } else { b[i].to_ascii_lowercase() });
+					i += 1;
+				}
+			}
+			out
+		}
+		3 => {
+			// percent-encode the first unreserved character outside escapes (not inside an IP-literal)
+			if s.starts_with('[') {
+				return s.to_string();
+			}
+			let b: Vec<char> = s.chars().collect();
+			let mut i = 0;
+			while i < b.len() {
+				if b[i] == '%' {
+					i += 3;
+					continue;
+				}
+				if b[i].is_ascii_alphanumeric() {
+					let mut out: String = b[..i].iter().collect();
+					out.push_str(&format!("%{:02X}", b[i] as u32));
+					out.extend(&b[i + 1..]);
+					return out;
+				}
+				i += 1;
+			}
+			s.to_string()
+		}
+		_ => s.to_string(),
+	}
+}
+
+/// Materialises the derived arguments against the evolving model.
+pub fn materialise(initial_authority: &AuthParts, ops: &[AOp], derive: &[u8]) -> Vec<AOp> {
+	let mut m = initial_authority.clone();
+	let mut out = vec![];
+	for (i, op) in ops.iter().enumerate() {
+		let how = derive.get(i).copied().unwrap_or(0) % 5;
+		let op2 = if how == 0 {
+			op.clone()
+		} else {
+			match op {
+				AOp::SetUserinfo(Some(_)) => match &m.userinfo {
+					Some(u) => AOp::SetUserinfo(Some(respell(u, how))),
+					None => op.clone(),
+				},
+				AOp::SetHost(_) => AOp::SetHost(respell(&m.host, how)),
+				AOp::SetPort(Some(_)) => match &m.port {
+					Some(p) => AOp::SetPort(Some(p.clone())),
+					None => op.clone(),
+				},
+				_ => op.clone(),
+			}
+		};
+		apply_model(&mut m, &op2);
+		out.push(op2);
+	}
+	out
 }
 
 pub fn apply_model(m: &mut AuthParts, op: &AOp) {
@@ -178,7 +275,7 @@ impl Prop for C11 {
 		(gen::fam(), any::<bool>())
 			.prop_flat_map(move |(f, full)| {
 				let o = Opt::new(f);
-				(initial(o, full), vec(aop(o), 1..=maxops)).prop_map(move |(initial, ops)| Case { fam: f, full, initial, ops })
+				(initial(o, full), vec(aop(o), 1..=maxops), vec(prop_oneof![4 => Just(0u8), 1 => 1u8..5], maxops)).prop_map(move |(initial, ops, derive)| Case { fam: f, full, initial, ops, derive })
 			})
 			.boxed()
 	}
@@ -188,8 +285,10 @@ impl Prop for C11 {
 			cx.class("skipped-nonascii-uri");
 			return Ok(());
 		}
-		let ops: Vec<AOp> = case
-			.ops
+		let a_init = split_authority(split(&case.initial).authority.as_deref().unwrap_or(""));
+		let concrete = materialise(&a_init, &case.ops, &case.derive);
+		cx.class_if(concrete != case.ops, "argument-derived-from-current-value");
+		let ops: Vec<AOp> = concrete
 			.iter()
 			.filter(|op| match case.fam {
 				Fam::Uri => u::op_valid(op),
@@ -243,6 +342,60 @@ impl Prop for C11 {
 		Ok(())
 	}
 
+	fn enumerate(_tier: Tier, shard: usize, nshards: usize, f: &mut dyn FnMut(Case, bool) -> bool) -> Vec<&'static str> {
+		// small complete product: authority shapes x what follows x ALL call sequences of length <= 2
+		let uis: [Option<&str>; 4] = [None, Some(""), Some("u"), Some("u:p")];
+		let hosts = ["", "h", "[::1]", "1.2.3.4", "longer.example"];
+		let ports: [Option<&str>; 3] = [None, Some(""), Some("80")];
+		let tails = ["", "/p", "?q", "#f", "/p?q#f"];
+		let mut calls: Vec<AOp> = vec![];
+		for u in [None, Some(""), Some("x"), Some("y:z:w")] {
+			calls.push(AOp::SetUserinfo(u.map(|s: &str| s.to_string())))
+		}
+		for h in ["", "g", "[v1.a]", "much-longer-host.example.org"] {
+			calls.push(AOp::SetHost(h.to_string()))
+		}
+		for p in [None, Some(""), Some("8080")] {
+			calls.push(AOp::SetPort(p.map(|s: &str| s.to_string())))
+		}
+		let mut seqs: Vec<Vec<AOp>> = calls.iter().map(|c| vec![c.clone()]).collect();
+		for a in &calls {
+			for b in &calls {
+				seqs.push(vec![a.clone(), b.clone()]);
+			}
+		}
+		let mut i = 0usize;
+		for scheme in ["", "s:"] {
+			for u in uis {
+				for h in hosts {
+					for p in ports {
+						for t in tails {
+							let auth = recompose_authority(&AuthParts { userinfo: u.map(|s| s.to_string()), host: h.to_string(), port: p.map(|s| s.to_string()) });
+							let initial = format!("{scheme}//{auth}{t}");
+							for full in [false, true] {
+								if full && scheme.is_empty() {
+									continue;
+								}
+								for ops in &seqs {
+									i += 1;
+									if i % nshards != shard {
+										continue;
+									}
+									// the IRI family and the URI family alternate (both are ASCII here)
+									let fam = if i % 2 == 0 { Fam::Uri } else { Fam::Iri };
+									if !f(Case { fam, full, initial: initial.clone(), ops: ops.clone(), derive: vec![] }, true) {
+										return vec![];
+									}
+								}
+							}
+						}
+					}
+				}
+			}
+		}
+		vec!["authority shapes (4 user infos x 5 hosts x 3 ports) x 5 tails x all call sequences of length <= 2 over 11 calls"]
+	}
+
 	fn floors(_tier: Tier) -> Vec<(&'static str, u64)> {
 		vec![
 			("judged", 100_000),
@@ -252,6 +405,7 @@ impl Prop for C11 {
 			("ip-literal", 10_000),
 			("no-scheme", 10_000),
 			("authority-at-end-of-buffer", 5_000),
+			("argument-derived-from-current-value", 20_000),
 			("empty-path", 15_000),
 			("non-ascii", 5_000),
 		]
